@@ -8,6 +8,7 @@ C16 line-protocol driver:  `lake env lean --run Sc3Verif/C16/Driver.lean < ops`
   freedead J                  free the (J mod #dead)-th already freed address (double free)
   freeaddr X                  free(X)
   freenone                    free(None)
+  freeall                     free(start) of every used block in address order (Buffer.free_all)
   blocks                      blocks()
   probeall                    for each distinct maximal free-run length m of the ledger: alloc(m) on a copy
   use I                       switch to allocator slot I (0..2)
@@ -156,6 +157,11 @@ def stepLine (st : St) (line : String) : St × String :=
           doFree st s (some x) s!"free {x}"
       | "freeaddr", some [x] => doFree st s (some x) s!"free {x}"
       | "freenone", some [] => doFree st s none "free None"
+      | "freeall", some [] =>
+        -- `Server._free_all_buffers`: free(block.address) for every used block, in address order
+        let a' := a.blocks.foldl (fun acc b => match acc.free (some b.start) with | .ok x => x | .error _ => acc) a
+        (st.setSlot (some { s with cba := a', live := [], dead := s.dead ++ (s.live.map (·.1)).filter (fun x => !s.dead.contains x) }),
+         s!"freeall ok {dump a'}")
       | "blocks", some [] => (st, "blocks [" ++ ",".intercalate (a.blocks.map fmtBlock) ++ "]")
       | "probeall", some [] =>
         let runs := freeRuns a.pos (a.off + a.size) s.live
